@@ -18,15 +18,9 @@ verus! {
 //@extract struct bigtools/src/bbi/bbiread.rs CirTreeNodeNonLeaf
 //@rule R8
 //@end
-// iterator -> Vec: the two generic parameters lose their `Iterator` bound and default; the unit
-// instantiates them with Vec<CirTreeNodeLeaf> / Vec<CirTreeNodeNonLeaf> (drops laziness only).
-//@extract enum bigtools/src/bbi/bbiread.rs CirTreeNodeIterator
-//@rule R8
-//@sub /L: Iterator<Item = CirTreeNodeLeaf> = CirTreeLeafItemIterator/ => L
-//@sub /N: Iterator<Item = CirTreeNodeNonLeaf> = CirTreeNonLeafItemsIterator/ => N
-//@end
-
 //@include spec.rs
+
+//@include nodes_code.inc
 
 // ---------------- lemmas (C04 / C05 completeness and soundness arguments) ----------------
 /// pos_le / pos_lt form a total order (used by the nesting lemma and by callers)
@@ -123,68 +117,6 @@ proof fn lemma_filter_children_is_filter_map(items: Seq<CirTreeNodeNonLeaf>, q: 
         assert(Seq::<CirTreeNodeNonLeaf>::empty().map_values(f) =~= Seq::<u64>::empty());
     }
 }
-
-//@extract fn bigtools/src/bbi/bbiread.rs compare_position
-//@rule R8
-//@ret r
-//@sig
-    ensures
-        [[L: result_is_a_sign]]
-        r == -1 || r == 0 || r == 1,
-        [[L: minus_one_iff_less]]
-        r == -1 <==> pos_lt((chrom1, chrom1_base), (chrom2, chrom2_base)),
-        [[L: zero_iff_equal]]
-        r == 0 <==> (chrom1 == chrom2 && chrom1_base == chrom2_base),
-        [[L: one_iff_greater]]
-        r == 1 <==> pos_lt((chrom2, chrom2_base), (chrom1, chrom1_base)),
-//@end
-
-//@extract fn bigtools/src/bbi/bbiread.rs overlaps
-//@rule R8
-//@ret r
-//@sig
-    ensures
-        [[L: is_closed_span_intersection]]
-        r == overlaps_spec(chromq, chromq_start, chromq_end, chromb1, chromb1_start, chromb2, chromb2_end),
-//@end
-
-// nodes_overlapping: iterator parameters -> Vec (R11, drops laziness only); SmallVec<[T; 4]> -> Vec<T>,
-// smallvec![] -> Vec::new(); `for child in iter` -> index loop (R7).
-//@extract fn bigtools/src/bbi/bbiread.rs nodes_overlapping
-//@rule R8
-//@rule R7 min=2
-//@sub /nodes_overlapping<\s*L: Iterator<Item = CirTreeNodeLeaf>,\s*N: Iterator<Item = CirTreeNodeNonLeaf>,\s*>/ => nodes_overlapping
-//@sub /CirTreeNodeIterator<L, N>/ => CirTreeNodeIterator<Vec<CirTreeNodeLeaf>, Vec<CirTreeNodeNonLeaf>>
-//@sub /SmallVec<\[([^;\]]+); 4\]>/ => Vec<\1> min=4
-//@sub /smallvec!\[\]/ => Vec::new() min=4
-//@ret r
-//@sig
-    ensures
-        [[L: leaf_blocks_are_ordered_filter]]
-        iter matches CirTreeNodeIterator::Leaf(items) ==>
-            r.1@ == filter_blocks(items@, chrom_ix, start, end, items@.len() as int),
-        [[L: leaf_has_no_children]]
-        iter matches CirTreeNodeIterator::Leaf(items) ==> r.0@.len() == 0,
-        [[L: nonleaf_children_are_ordered_filter]]
-        iter matches CirTreeNodeIterator::NonLeaf(items) ==>
-            r.0@ == filter_children(items@, chrom_ix, start, end, items@.len() as int),
-        [[L: nonleaf_has_no_blocks]]
-        iter matches CirTreeNodeIterator::NonLeaf(items) ==> r.1@.len() == 0,
-//@loop 1
-                invariant
-                    [[L: loop1/blocks_are_filter_of_prefix]]
-                    blocks@ == filter_blocks(iter@, chrom_ix, start, end, i__1 as int),
-                decreases
-                    [[L: loop1/termination]]
-                    iter.len() - i__1,
-//@loop 2
-                invariant
-                    [[L: loop2/children_are_filter_of_prefix]]
-                    new_childblocks@ == filter_children(iter@, chrom_ix, start, end, i__2 as int),
-                decreases
-                    [[L: loop2/termination]]
-                    iter.len() - i__2,
-//@end
 
 // the result, restated with the standard library's filter/map (what the task statement calls
 // `items.filter(overlaps).map(block)`), as a corollary of the contract above
